@@ -236,10 +236,15 @@ def group_gen(cfg, stmts, nss, groups):
     """Yield one container per group size (grouped serialization input)."""
     pos = 0
     first = True
-    for n in groups:
+    per_group = cfg.get("ns_groups")
+    for k, n in enumerate(groups):
         chunk = stmts[pos:pos + n]
         pos += n
-        yield make_container(cfg, chunk, nss if (first or cfg.get("ns_all_groups")) else [])
+        if per_group:
+            # every input carries its own bindings (subsets, other orders, labels bound to another namespace)
+            yield make_container(cfg, chunk, [tuple(b) for b in per_group[k]])
+        else:
+            yield make_container(cfg, chunk, nss if (first or cfg.get("ns_all_groups")) else [])
         first = False
 
 
